@@ -56,6 +56,13 @@ void runCase(long long i, Prng& r, const Args& a) {
   bool rel = r.coin(0.6);
   if (rel) { Y = X.compose((-t).exp()); ly = "rel:" + lt; }   // Y^-1 X = exp(t)
   else { Y = groupFrom<MonG>(genElement<MonS>(g, r, o, ly)); ly = "indep"; }
+  // the second operand is derived by composition and can leave the domain the property is stated for (coordinates up to 1e6):
+  // SGal3 with velocity 1e6 and time 1e3 yields translations 1e9, where the conditioning of double arithmetic itself (ulp 1e-7) is
+  // what one measures.  Such pairs are counted and replaced by an independent in-domain element.
+  {
+    double cm = 0; for (int k = 0; k < g.rep; ++k) cm = std::max(cm, std::fabs((double)Y.coeffs()(k)));
+    if (cm > (dbl ? 1e7 : 1e3)) { LOG.count("second-operand-outside-domain/" + GN()); Y = groupFrom<MonG>(genElement<MonS>(g, r, o, ly)); ly = "indep"; rel = false; }
+  }
   std::vector<MonS> pv = genPoint<MonS>(g, r, 1e3);
   typename MonG::Vector p; for (int k = 0; k < g.dim; ++k) p(k) = pv[k];
 
